@@ -495,7 +495,7 @@ theorem decodeTbs_canon (raw : Bytes) (op : Bool) (sig : Bytes) (d : Decoded) (h
 
 theorem takeCert_canon (b : Bytes) (d : Decoded) (rest : Bytes) (hb : AllBytes b) (h : takeCert b = some (d, rest)) :
     ClaimCanon IpDer.maxAddr d.v4 ∧ ClaimCanon IpDer.maxAddr d.v6 ∧ ClaimCanon AsDer.maxAs d.asn := by
-  unfold takeCert at h
+  unfold takeCert certBody at h
   cases h0 : takeCons tagSeq b with
   | none => simp [h0] at h
   | some q0 =>
